@@ -228,7 +228,13 @@ def gen_call(gs, w):
                     step = rng.choice([1, 1, 2])
                     total = start + n * step + rng.choice([0, 2])
                     hexd = b"".join(bytes.fromhex(M.gen_scalar(rng, a["t"])["x"]) for _ in range(total)).hex()
-                    vals.append({"np": {"hex": hexd, "start": start, "step": step, "n": n, "two_d": rng.random() < 0.2}})
+                    npv = {"hex": hexd, "start": start, "step": step, "n": n, "two_d": rng.random() < 0.2}
+                    if rng.random() < 0.15:
+                        # a view that runs backwards through the memory of its base (a[::-1]): the pointer is
+                        # to ITS first element, which is not the lowest address of the view
+                        npv.update({"rev": True, "step": 1, "two_d": False, "start": a["k"] - 1 + rng.choice([0, 2])})
+                        npv["hex"] = b"".join(bytes.fromhex(M.gen_scalar(rng, a["t"])["x"]) for _ in range(npv["start"] + n + 2)).hex()
+                    vals.append({"np": npv})
             else:
                 if w.schema[a["type"]]["k"] == "uref":
                     mem = [(m, x) for m, mt in enumerate(w.schema[a["type"]]["members"]) for x in w.live_objs(mt)]
@@ -246,6 +252,12 @@ def gen_call(gs, w):
                 vals.append({"obj": o.k, "at": at, "via": gs._via(o)})
         if not ok:
             continue
+        fl = [i for i, a in enumerate(p["args"]) if a["kind"] == "sc" and a["t"] in ("Float32", "Float64")]
+        if len({p["args"][i]["t"] for i in fl}) == 2 and rng.random() < 0.5:
+            # ONE Python float object given for a float and for a double parameter (a value that float cannot hold exactly)
+            sv = rng.choice([0.1, 1.0 / 3.0, 2.0 / 3.0, 1e-3, 123456.789])
+            for i in fl:
+                vals[i] = {"shared_float": sv, "form": "py"}
         bad = None
         r = rng.random()
         if r < 0.25:
@@ -312,7 +324,14 @@ def run_call(step):
     bad = op.get("bad")
     for i, (a, v) in enumerate(zip(p["args"], op["vals"])):
         nm = f"a{i}"
-        if a["kind"] == "sc":
+        if a["kind"] == "sc" and "shared_float" in v:
+            dt = np.dtype(typegen.SC_DTYPE[a["t"]])
+            if "shared_float_obj" not in step.__dict__:
+                step.shared_float_obj = float(v["shared_float"])
+            kwargs[nm] = step.shared_float_obj  # the identical object for every such parameter
+            expect.append((f"scalar {nm}:{a['t']} (one float object shared by several parameters)", dt.type(step.shared_float_obj).tobytes(), 8))
+            res.probe("c_call_one_object_for_two_parameters")
+        elif a["kind"] == "sc":
             py = M.scalar_py(a["t"], v["v"])
             dt = np.dtype(typegen.SC_DTYPE[a["t"]])
             if v["form"] == "np":
@@ -372,12 +391,24 @@ def run_call(step):
                         res.probe("c_call_refusal_exotic_element_type")
                     base = np.zeros(len(base) + 4, dtype=odt)
                 arr = base[nd["start"] :: nd["step"]][: nd["n"]]
+                if nd.get("rev"):
+                    arr = base[nd["start"] :: -1][: nd["n"]]  # base[start], base[start-1], ...
                 if nd.get("two_d") and len(arr) >= 2 and len(arr) % 2 == 0:
                     arr = arr.reshape(2, -1)
                 keep.append((base, arr))
                 kwargs[nm] = arr
                 flat = arr.reshape(-1)
-                if nd["step"] == 1:
+                if nd.get("rev"):
+                    # arr[0] is base[start]; behind that address lie base[start], base[start+1], ...
+                    s0 = nd["start"]
+                    if len(arr) < 1:
+                        raise Skip()
+                    exp = base[s0 : s0 + a["k"]].tobytes()
+                    if len(exp) < nbytes:
+                        raise Skip()
+                    expect.append((f"{a['k']} elements behind the first element of reversed ndarray view {nm}", exp, (nbytes + 7) // 8 * 8))
+                    res.probe("c_call_reversed_ndarray_view")
+                elif nd["step"] == 1:
                     exp = flat[: a["k"]].tobytes() if len(flat) >= a["k"] else None
                     if exp is None:
                         raise Skip()
@@ -498,7 +529,10 @@ def run_call(step):
             step.viol("C17", "void_kernel_returned_value", [], repr(ret))
     else:
         dt = np.dtype(typegen.SC_DTYPE[rspec["t"]])
-        wantb = bytes.fromhex(op["vals"][rspec["arg"]]["v"]["x"]) if "arg" in rspec else bytes.fromhex(rspec["const"])
+        if "arg" in rspec and "shared_float" in op["vals"][rspec["arg"]]:
+            wantb = dt.type(float(op["vals"][rspec["arg"]]["shared_float"])).tobytes()
+        else:
+            wantb = bytes.fromhex(op["vals"][rspec["arg"]]["v"]["x"]) if "arg" in rspec else bytes.fromhex(rspec["const"])
         try:
             gotb = dt.type(ret).tobytes()
         except Exception as e:
